@@ -58,13 +58,14 @@ func init() {
 			"stage B is closed-world: internal/field can only be imported inside the module and every importing package is analysed; exported functions are entered with any aliasing of up to three same-typed pointer parameters (more: none or all); elements reachable from their parameters satisfy the inferred per-(type,field) bounds, which every exported function is shown to re-establish",
 		)
 		run.NotDecided = append(run.NotDecided,
-			"inversion, square roots and the exponentiation chains (compositions of the decided primitives): not decided; multiplication/squaring/Pow2k/Mul121666/Add/Sub/Neg written in Go ARE decided functionally by E-LIN (result ≡ product mod p coefficient-wise in the monomials a_i·b_j); the induction over k in Pow2k is argued from the one-iteration check",
+			"inversion and square roots: the exponentiation chains are decided in the exponent domain (EXP-chain: Invert = t^(p-2), pow_p58 = t^((p-5)/8), the candidate tests of SqrtRatioI), given the decided primitives; multiplication/squaring/Pow2k/Mul121666/Add/Sub/Neg written in Go ARE decided functionally by E-LIN (result ≡ product mod p coefficient-wise in the monomials a_i·b_j); the induction over k in Pow2k is argued from the one-iteration check",
 			"the amd64 assembly (feMul, fePow2k) and the AVX2 vector code: no range model of assembly; in the amd64 configuration Mul, Square, Square2 and Pow2k are reported as not decided and stage B is not run",
 			"the last step of ToBytes's canonicalisation argument (discarded carry = quotient) is a stated two-case argument from decided facts, not mechanised; that the bias constants of Sub/Neg are a multiple of p (E-CONST)",
 			"curve/scalar: the 64-bit back end is analysed by erange.CheckScalar64 under property C05; the 32-bit scalar back end wraps on purpose (Karatsuba) and is out of reach of intervals",
 		)
 
 		erange.DeclareFieldRules(run, "RANGE-A", stageA)
+		exp := expRule(run, len(stageA))
 		bi := run.Rule("DT-batchinvert", "BatchInvert is Montgomery's trick with zero skipping, uniform over all indices", 4*len(stageA))
 		run.Rule("SIB-uniform", "limb-wise operations compute limb i from limbs i by one template for all i", 8*len(stageA))
 		if len(stageB) > 0 {
@@ -95,6 +96,7 @@ func init() {
 				}
 				// Montgomery's trick and limb uniformity
 				edt.Check(bi, &edt.Config{P: p, Mod: modFor(p)}, batchInvertSpec())
+				checkExpAll(run, p, exp)
 				esib.CheckUniform(run, p, "SIB-uniform")
 				lr := elin.CheckField(run, p, "LIN")
 				if id == stageA[0] {
